@@ -158,11 +158,12 @@ namespace adept {
       else if (status != MINIMIZER_STATUS_NOT_YET_CONVERGED) {
 	// Cost function or its gradient not finite: revert to
 	// previous step
-	step_size = cf1;
-	if (cf1 > 0.0) {
+	if (ss1 > 0.0) {
 	  x += (ss1 * dir_scaling) * direction;
+	  step_size = ss1;
+	  cost_function_ = cf1;
 	}
-	state_up_to_date = 0;
+	state_up_to_date = -1;
 	return status;
       }
      
@@ -261,11 +262,12 @@ namespace adept {
       else if (status != MINIMIZER_STATUS_NOT_YET_CONVERGED) {
 	// Cost function or its gradient not finite: revert to
 	// previous step
-	step_size = cf1;
-	if (cf1 > 0.0) {
+	if (ss1 > 0.0) {
 	  x += (ss1 * dir_scaling) * direction;
+	  step_size = ss1;
+	  cost_function_ = cf1;
 	}
-	state_up_to_date = 0;
+	state_up_to_date = -1;
 	return status;
       }
      
